@@ -7,10 +7,7 @@
    (the `?` chain returns the first failure).  One initial state = one case (carrier size +
    operation tables); the single step `Eval` computes the reference verdicts and the
    transcribed messages.  Invariants:
-     Agree   each transcribed checker answers Ok exactly when the reference law holds --
-             except `linearity`, whose transcription (arguments of g swapped, as in the code)
-             is stated as the code fact it is (LinearityFact); the property-level question
-             for the real function is decided on the recorded trace by AlgebraLawsTrace;
+     Agree   each transcribed checker answers Ok exactly when the reference law holds;
      Meta    sanity theorems of the reference definitions themselves (uniqueness of
              identity / absorbing element, cancellation in groups, left = right
              distributivity for commutative g, transport of associativity along bijective
@@ -57,9 +54,9 @@ MsgNzd(n, f, zero) ==
 MsgLDistr(n, f, g) == IF LeftDistr(n, f, g) THEN "" ELSE "Left distributive property check failed."
 MsgRDistr(n, f, g) == IF RightDistr(n, f, g) THEN "" ELSE "Right distributive property check failed."
 MsgDistr(n, f, g) == Then(MsgLDistr(n, f, g), MsgRDistr(n, f, g))
-\* if q(f(a,b)) != g(q(b), q(a))      <-- as written in the code: g's arguments swapped
+\* if q(f(a,b)) != g(q(a), q(b))
 ImplLinear(n, f, g, q) ==
-    \A a, b \in Car(n) : Ap1(q, Ap2(f, a, b)) = Ap2(g, Ap1(q, b), Ap1(q, a))
+    \A a, b \in Car(n) : Ap1(q, Ap2(f, a, b)) = Ap2(g, Ap1(q, a), Ap1(q, b))
 MsgLinear(n, f, g, q) == IF ImplLinear(n, f, g, q) THEN "" ELSE "Linearity check failed."
 MsgBilinear(n, f, h, g, q) == IF Bilinear(n, f, h, g, q) THEN "" ELSE "Bilinearity check failed."
 
@@ -277,15 +274,15 @@ Agree == phase = "done" =>
       [] case.kind = "ring" ->
            /\ Same2(n, impl.ring, exp.ring) /\ Same2(n, impl.cring, exp.cring)
            /\ Same2(n, impl.intdom, exp.intdom) /\ Same2(n, impl.field, exp.field)
-      [] case.kind = "lin" -> TRUE          \* see LinearityFact
+      [] case.kind = "lin" -> OkV(impl.linearity) = exp.linearity
       [] case.kind = "bilin" -> OkV(impl.bilinearity) = exp.bilinearity
       [] case.kind = "app" -> OkV(impl.semiring) = exp.semiring
 
-\* code fact: the transcribed linearity checker decides the law for g with swapped arguments,
-\* hence agrees with the reference whenever g is commutative
+\* a homomorphism into (Car(m), g) is an anti-homomorphism into the mirrored operation: the
+\* strata with transposed g separate the law from its mirror image
 LinearityFact == (phase = "done" /\ case.kind = "lin") =>
-    /\ OkV(impl.linearity) = Linear(case.n, case.f, Transpose(case.m, case.g), case.q)
-    /\ Comm(case.m, case.g) => (OkV(impl.linearity) = exp.linearity)
+    (Comm(case.m, case.g) =>
+        (exp.linearity = Linear(case.n, case.f, Transpose(case.m, case.g), case.q)))
 
 Bij(n, q) == {q[i] : i \in 1..n} = Car(n)
 
